@@ -28,7 +28,7 @@ func init() { core.Register(c13{}) }
 
 func (c13) ID() string { return "C13" }
 func (c13) Rule() string {
-	return "plans: <= 12 operator operations on truststore/x509/<type>/<name>/ (write PEM / DER / multi-certificate files of root CA, intermediate CA, self-signed leaf, non-self-signed leaf; garbage, empty and torn certificate files; sub-directory; symlink to a file; store directory replaced by a symlink; stray certificate directly under x509/<type>/; removals) interleaved with <= 8 loads over store types (valid, invalid) and names (plain, dotted, with separators, '.', '..', empty), with EIO / EACCES injected into Lstat / ReadDir of a load. non-trivial: a load addressed an existing path whose content is not a plain valid store, or a fault fired; distinct: hash of (operations, load arguments, verdicts)"
+	return "plans: (a quarter with a well-formed store under a directory spelled almost like a store type, loaded from under that spelling) <= 12 operator operations on truststore/x509/<type>/<name>/ (write PEM / DER / multi-certificate files of root CA, intermediate CA, self-signed leaf, non-self-signed leaf; garbage, empty and torn certificate files; sub-directory; symlink to a file; store directory replaced by a symlink; stray certificate directly under x509/<type>/; removals) interleaved with <= 8 loads over store types (valid, invalid) and names (plain, dotted, with separators, '.', '..', empty), with EIO / EACCES injected into Lstat / ReadDir of a load. non-trivial: a load addressed an existing path whose content is not a plain valid store, or a fault fired; distinct: hash of (operations, load arguments, verdicts)"
 }
 func (c13) Components() map[string]string {
 	return map[string]string{
@@ -39,7 +39,10 @@ func (c13) Components() map[string]string {
 	}
 }
 
-var c13Types = []string{"ca", "signingAuthority", "tsa", "CA", "tsa ", "x", ""}
+var c13Types = []string{"ca", "signingAuthority", "tsa", "CA", "tsa ", "x", "", "TSA", "signingauthority"}
+
+// spellings that are no store type, under which a directory with a well-formed store may nevertheless exist
+var c13NearTypes = []string{"CA", "Ca", "TSA", "Tsa", "signingauthority", "SigningAuthority", "SIGNINGAUTHORITY", "tsa ", " ca", "x", "ca.", "x509"}
 var c13Names = []string{"s1", "s2", "with.dot", "a-b_c", ".", "..", "...", "", "s1/", "s1/../s2", "../ca/s1", "s 1", "s1\x00", "..s", "no-such-store",
 	// names that a trimming, case-folding or unescaping lookup would turn into an existing store
 	" s1", "s1 ", "s1\n", "\ts2", "S1", "S2", "With.Dot", "%73%31", "s1%00", "s1.", "A-B_C"}
@@ -80,6 +83,14 @@ func (c13) Gen(r *rand.Rand, tier string, idx int) *core.Plan {
 		}
 	}
 	p.Ops = append(p.Ops, core.Op{Kind: "load", S: []string{validType(), core.Pick(r, "s1", "s2", ".", "with.dot", "..")}})
+	if idx%4 == 2 {
+		// a directory spelled almost like a store type holds a well-formed store (root certificate 0, or the
+		// intermediate 1 a tsa store would refuse): that spelling is no store type, nothing is loaded from it
+		near := c13NearTypes[idx/4%len(c13NearTypes)]
+		name := []string{"s1", "s2"}[idx/48%2]
+		p.Ops = append([]core.Op{{Kind: "writecert", S: []string{near, name, "a.pem"}, I: []int64{int64(idx / 96 % 2), 0}}}, p.Ops...)
+		p.Ops = append(p.Ops, core.Op{Kind: "load", S: []string{near, name}})
+	}
 	if r.IntN(3) == 0 {
 		p.World["cancel"] = int64(1 + r.IntN(60))
 	}
